@@ -181,6 +181,19 @@ theorem hourOfDay_range (s : TimeStamp) (p : Time) :
   unfold TimeStamp.getHourOfDay
   exact ⟨Int.emod_nonneg _ (by norm_num), Int.emod_lt_of_pos _ (by norm_num)⟩
 
+/-- **The hour of day depends on the start stamp only through its time of day**: the stamp's year, month and day (which
+are not whole numbers of days in this calendar: a month is 4.3452 weeks) do not enter. -/
+theorem hourOfDay_ignores_date (s s' : TimeStamp) (p : Time)
+    (hh : s.hour = s'.hour) (hm : s.minute = s'.minute) (hs : s.second = s'.second) :
+    s.getHourOfDay p = s'.getHourOfDay p := by
+  unfold TimeStamp.getHourOfDay
+  rw [hh, hm, hs]
+
+/-- e.g. a run started on 2019-01-01 07:45 uses the same hours of day as one started at 07:45 of day 0 -/
+example : (⟨2019, 1, 1, 7, 45, 0⟩ : TimeStamp).getHourOfDay ⟨33/2, .hour⟩ = 0 ∧
+    (⟨0, 0, 0, 7, 45, 0⟩ : TimeStamp).getHourOfDay ⟨33/2, .hour⟩ = 0 := by
+  constructor <;> decide +kernel
+
 private theorem whole_sec_frac (J : ℤ) :
     ((J : ℚ) / 3600) ≤ (⌊(J : ℚ) / 3600⌋ : ℚ) + 1 - 1 / 10 ^ 6 := by
   have hf : ⌊(J : ℚ) / 3600⌋ = J / 3600 := by
